@@ -236,6 +236,20 @@ def run_cases(res: Result, rng: random.Random, n_msgs: int, n_random: int, fails
         wire = gen.rfc_wire(456, 0, 0x40, p)
         add(f"AVPSTR {wire.hex()}")
         add(f"MSGDEC {(gen.rfc_header(1, 20 + len(wire), 0x80, rng.choice([272, 999]), 4, 1, 2) + wire).hex()} 0")
+    # well-formed Grouped AVPs nested 1..16 deep (different grouped codes, a scalar or nothing innermost), in commands with
+    # and without a typed class, decoded both ways
+    gcodes = [456, 443, 260, 873, 874, 297]
+    for depth in range(1, 17):
+        for inner in (b"", gen.rfc_wire(263, 0, 0x40, b"s;1"), gen.rfc_wire(432, 0, 0x40, (7).to_bytes(4, "big"))):
+            w = inner
+            for lvl in range(depth):
+                gcode = gcodes[(depth + lvl) % len(gcodes)]
+                w = gen.rfc_wire(gcode, 10415 if gcode in (873, 874) else 0, (0x80 if gcode in (873, 874) else 0) | 0x40, w)
+            for cmd_code in (999, 283, 272):
+                data = gen.rfc_header(1, 20 + len(w), 0x80, cmd_code, 4, 1, 2) + w
+                add(f"MSGDEC {data.hex()} 0")
+                add(f"MSGDEC {data.hex()} 1")
+            add(f"AVPSTR {w.hex()}")
     # uniformly random bytes
     for i in range(n_random):
         n = rng.choice([0, 1, 7, 8, 12, 19, 20, 21, 28, 40, 100, rng.randrange(0, 400)])
